@@ -567,7 +567,8 @@ func c15ConcJobs(thorough bool) []c15Conc {
 		js = append(js,
 			c15Conc{2, 1, "X4-blocking-batch-end-end-shutdown", "batch(E)", [][]string{{"End"}, {"End"}, {"Shutdown"}}, true},
 			c15Conc{2, 1, "X5-batch-shutdown-unreg", "batch(E)", [][]string{{"Shutdown"}, {"Unreg1"}, {"End"}}, false},
-			c15Conc{2, 1, "X6-shutdownC-shutdown-end", "batch(E)", [][]string{{"ShutdownC"}, {"Shutdown"}, {"End"}}, false},
+			c15Conc{1, 1, "X6-shutdownC-shutdown-end", "batch(E)", [][]string{{"ShutdownC"}, {"Shutdown"}, {"End"}}, false},
+			c15Conc{2, 0, "X6-shutdownC-shutdown-end", "batch(E)", [][]string{{"ShutdownC"}, {"Shutdown"}, {"End"}}, false}, // (2,1) does not finish within the budget
 			c15Conc{2, 0, "X7-blocking-batch-3ends-shutdown", "batch(E)", [][]string{{"End", "End"}, {"End"}, {"Shutdown"}}, true},
 			c15Conc{3, 0, "X1-shutdown-shutdown-unreg", "rec", [][]string{{"Shutdown"}, {"Shutdown"}, {"Unreg1"}}, false},
 		)
